@@ -36,7 +36,9 @@ def tasks(tier, seed, selftest=False):
             add("U2", p, (40 if q else 1200), strat)
             add("D3", p, (25 if q else 1200), strat)
     for strat in (0, 1):
-        add("P:SW2+SW2", (), 30 if q else 900, strat)     # several parents per node: outermost-node logic
+        add("P:SW2+SW2", (), 30 if q else 900, strat)
+        # minimal driver sets of different sizes that share a variable ({a,b} and {a,c,d} both force the all-ones motif)
+        add("DRV4", (), 20 if q else 900, strat)     # several parents per node: outermost-node logic
     for strat in (0, 1):
         add("S1C2", (), 15 if q else 600, strat, free=True)      # the source presented as a free input (no update function)
     if q:
